@@ -504,8 +504,9 @@ impl Config {
                         let base: u32 = subnet.network().into();
                         let addresses = addresses.get_or_insert_with(Vec::new);
                         /* Everything except the first (network) and last (broadcast) address */
-                        for i in 1..((1 << (32 - subnet.prefixlen)) - 1) {
-                            addresses.push((base + i).into())
+                        /* 64 bit arithmetic: a /0 has 2^32 addresses */
+                        for i in 1..((1_u64 << (32 - subnet.prefixlen)) - 1) {
+                            addresses.push((base + i as u32).into())
                         }
                     }
                     Some(x) if x.starts_with("apply-") => {
